@@ -440,9 +440,11 @@ def execute(trace: dict, known, collect_log=True) -> dict:
                 cleanup = lambda: (shutil.rmtree(arg, ignore_errors=True), shutil.rmtree(arg + ".linked", ignore_errors=True))  # noqa: E731
         try:
             try:
-                prs = pptx.Presentation(arg)
+                # liveness: refusing or opening takes a bounded number of steps (seams.step_budget; deterministic, not wall-clock)
+                with seams.step_budget(seams.budget_for(data)):
+                    prs = pptx.Presentation(arg)
                 raised = None
-            except Exception as e:  # noqa: BLE001
+            except (Exception, seams.StepBudgetExceeded) as e:  # noqa: BLE001
                 prs = None
                 raised = e
                 import traceback
